@@ -126,6 +126,7 @@ class FuncAnalysis:
         self.count = 0
         self.in_call = []
         self.depth = {}
+        self.flag_line = 10 ** 9     # first line at which a flag-reading local was computed
 
     # -- expression translation
     def tr(self, node, env):
@@ -310,11 +311,64 @@ class FuncAnalysis:
     def site(self, node, kind, expr, dims=(), note=''):
         self.count += 1
         expr = self.clean(expr)
+        operands, late = self.operand_facts(min(node.lineno, self.flag_line))
         self.sites.append({
             'file': self.fname, 'func': self.qual, 'line': node.lineno, 'kind': kind,
             'ord': self.count, 'expr': expr, 'dims': list(dims), 'src': src(node)[:160],
             'params': self.params, 'required': self.required, 'note': note, 'depth': dict(self.depth),
+            'operands': operands, 'late': late, 'exempt': [], 'listlike': self.listlike(),
         })
+
+    def listlike(self):
+        """parameters used as sequences in the function body (subscripted, sliced, iterated, len())"""
+        out = set()
+        for n in ast.walk(self.fn):
+            if isinstance(n, ast.Subscript) and isinstance(n.value, ast.Name):
+                out.add(n.value.id)
+            elif isinstance(n, (ast.For, ast.comprehension)) and isinstance(n.iter, ast.Name):
+                out.add(n.iter.id)
+            elif isinstance(n, ast.Call) and isinstance(n.func, ast.Name) and n.func.id in ('len', 'list', 'zip', 'iter'):
+                out.update(a.id for a in n.args if isinstance(a, ast.Name))
+        return sorted(p for p in self.params if p in out)
+
+    def operand_facts(self, eval_line):
+        """(secret operands = parameters passed to gather, in parameter order;
+            late modifications 'p<-q': operand p (or an element of it) is assigned, mixing in another
+            parameter q, after the flag expression was evaluated and before p's shares are gathered)."""
+        gathers = []
+        for c in ast.walk(self.fn):
+            if isinstance(c, ast.Call) and isinstance(c.func, ast.Attribute) and c.func.attr == 'gather':
+                gathers.append((c.lineno, {n.id for a in c.args for n in ast.walk(a) if isinstance(n, ast.Name)}))
+        params = [p for p in self.params if p != 'self']
+        operands = [p for p in params if any(p in ns for (_, ns) in gathers)]
+        late = []
+        for st in ast.walk(self.fn):
+            if isinstance(st, ast.Assign):
+                targets, value = st.targets, st.value
+            elif isinstance(st, ast.AugAssign):
+                targets, value = [st.target], st.value
+            else:
+                continue
+            if st.lineno <= eval_line:
+                continue
+            if any(isinstance(n, ast.Call) and isinstance(n.func, ast.Attribute) and n.func.attr == 'gather'
+                   for n in ast.walk(value)):
+                continue      # `a = b = await self.gather(a)`: taking the shares, not modifying the operand
+            for tg in targets:
+                base = tg
+                while isinstance(base, ast.Subscript):
+                    base = base.value
+                if not (isinstance(base, ast.Name) and base.id in params):
+                    continue
+                p = base.id
+                first_gather = min([ln for (ln, ns) in gathers if ln > eval_line and p in ns] or [10 ** 9])
+                if st.lineno >= first_gather:
+                    continue
+                others = sorted({n.id for n in ast.walk(value) if isinstance(n, ast.Name) and n.id in params and n.id != p})
+                for q in others:
+                    if '%s<-%s' % (p, q) not in late:
+                        late.append('%s<-%s' % (p, q))
+        return operands, late
 
     def clean(self, e):
         """Remove internal markers that must not escape."""
@@ -454,6 +508,8 @@ class FuncAnalysis:
             e = self.rt_of_tuple(value, env)
             if e is not None or (value.elts and is_type_like(value.elts[0])):
                 env[name] = RT([e])
+                if e is not None and reads_flags(e):
+                    self.flag_line = min(self.flag_line, value.lineno)
                 return
         if isinstance(value, ast.Name) and value.id in env:
             env[name] = env[value.id]
@@ -463,6 +519,8 @@ class FuncAnalysis:
             e = self.tr(value, env)
             if 'integral' in name or reads_flags(e) or isinstance(env.get(name), tuple):
                 env[name] = e
+                if reads_flags(e):
+                    self.flag_line = min(self.flag_line, value.lineno)
                 return
         if name in env:
             if isinstance(env[name], RT):
@@ -545,7 +603,59 @@ def collect(repo=None):
     # constructor inference: SecureFixedPoint.__init__ / SecureFixedPointArray.__init__
     for s in sites:
         s['key'] = '%s:%s#%d' % (s['file'][:-3], s['func'], s['ord'])
+    exempt_by_caller_guards(repo, sites)
     return sites
+
+
+def expr_mentions(e, name):
+    if not isinstance(e, (tuple, list)):
+        return False
+    if e[0] in ('Elem', 'Idx', 'AllOf') and e[1] == name:
+        return True
+    return any(expr_mentions(x, name) for x in e[1:])
+
+
+def exempt_by_caller_guards(repo, sites):
+    """An operand that the rule does not consult is exempt when EVERY call of the function (in the same
+    file) passes, in that position, a name on which the calling function has an integrality guard
+    (`if ... not c.integral: raise`), e.g. the condition of _if_else_list, guarded in if_else."""
+    trees = {}
+    for s in sites:
+        if s['kind'] == 'guard':
+            continue
+        missing = [p for p in s['operands'] if not expr_mentions(s['expr'], p)]
+        if not missing:
+            continue
+        fname = s['file']
+        if fname not in trees:
+            tree = ast.parse(open(os.path.join(repo, 'mpyc', fname)).read())
+            calls = []
+
+            def walk(node, qual):
+                for ch in ast.iter_child_nodes(node):
+                    if isinstance(ch, ast.ClassDef):
+                        walk(ch, qual + ch.name + '.')
+                    elif isinstance(ch, (ast.FunctionDef, ast.AsyncFunctionDef)):
+                        for n in ast.walk(ch):
+                            if isinstance(n, ast.Call) and isinstance(n.func, ast.Attribute):
+                                calls.append((qual + ch.name, n))
+                        walk(ch, qual + ch.name + '.')
+            walk(tree, '')
+            trees[fname] = calls
+        short = s['func'].split('.')[-1]
+        pos_params = [p for p in s['params'] if p != 'self']
+        for p in missing:
+            k = pos_params.index(p)
+            callers = [(q, c) for (q, c) in trees[fname] if c.func.attr == short and q != s['func']]
+            ok = bool(callers)
+            for (q, c) in callers:
+                arg = c.args[k] if k < len(c.args) else None
+                guarded = isinstance(arg, ast.Name) and any(
+                    g['kind'] == 'guard' and g['file'] == fname and g['func'] == q and g['line'] < c.lineno
+                    and expr_mentions(g['expr'], arg.id) for g in sites)
+                ok = ok and guarded
+            if ok:
+                s['exempt'].append(p)
 
 
 def init_inference(repo=None):
@@ -589,7 +699,9 @@ KIND = {'return': 'KReturn', 'ctor': 'KCtor', 'assign': 'KAssign', 'guard': 'KGu
 
 def coq_site(s):
     dims = '[' + '; '.join('Some %d%%nat' % d if isinstance(d, int) and 0 <= d < 1000 else 'None' for d in s['dims']) + ']'
-    return '  mkSite %s %s %s %s' % (qs(s['key']), KIND[s['kind']], dims, coq_expr(s['expr']))
+    ops = '[' + '; '.join(qs(p) for p in s['operands'] if p not in s['exempt']) + ']'
+    late = '[' + '; '.join(qs(p) for p in s['late']) + ']'
+    return '  mkSite %s %s %s %s %s %s' % (qs(s['key']), KIND[s['kind']], dims, coq_expr(s['expr']), ops, late)
 
 
 # scalar operations whose rule is modelled (and proved sound) in Fxp.v:  key -> Fxp.v constant
@@ -629,8 +741,9 @@ def emit(sites, outdir=None):
     cv = ('(* GENERATED obligation: list coverage *)\n'
           'From Coq Require Import String List Bool ZArith.\nRequire Import MPyC.Fxp MPyCGen.FlagRules.\n'
           'Import ListNotations.\n\n'
-          '(* a rule that sets the flag of a result computed from a list consults ALL elements of that list *)\n'
-          'Theorem rule_consults_all : forallb covers_all_elements (filter is_setting_site rules) = true.\n'
+          '(* a rule that sets the flag of a result consults ALL elements of every list operand and EVERY secret operand\n'
+          '   of the result, and no operand is modified between the evaluation of the rule and the use of its shares *)\n'
+          'Theorem rule_consults_all : forallb site_ok (filter is_setting_site rules) = true.\n'
           'Proof. vm_compute. reflexivity. Qed.\n')
     with open(os.path.join(outdir, 'FlagCover.v'), 'w') as f:
         f.write(cv)
